@@ -69,7 +69,14 @@ func (o *OperatorPartition) ExclusivelyOwnsTable(uri string, startKey []byte, en
 		}
 	}
 
-	return !neighborNeedsTable, err
+	// Without a definite answer from every neighbor the table must be kept.
+	if neighborNeedsTable {
+		return false, nil
+	}
+	if err != nil {
+		return false, err
+	}
+	return true, nil
 }
 
 var _ kv.DataOwnership = &OperatorPartition{}
